@@ -233,21 +233,26 @@ theorem parseV1Block_inv (certOk : Bytes → Bool) (data : Bytes) (cb : CertBloc
           rw [g] at hr
           obtain ⟨t128, hflat, hlen4, h32⟩ := rkhtV1Parse_inv _ rkh hr (by simp only [List.length_take]; omega)
           have hrest : rest ≠ [] := by
-            intro he; rw [he] at t128; simp at t128
+            intro he; subst he; simp at t128
           obtain ⟨hb, hcnt, hcs⟩ := certsParse_inv certOk _ _ certs rest hc hrest
           refine ⟨hd, rfl, hcnt, hlen4, fun c hc' => (hcs c hc').2, rfl, fun hne hctl => ?_⟩
           have hrl : 128 ≤ rest.length := by
             simp only [List.length_take] at t128; omega
+          have hctl' : hd.certTableLength = certTableLength certs := hctl
           have wf : WFv1 certOk ⟨hd.major, hd.minor, hd.flags, hd.buildNumber, hd.imageLength, certs, rkh, G.cbV1Alignment⟩ :=
             { major := b1, minor := b2, flags := b3, build := b4, image := b5
-              certs_ne := by intro he; rw [he] at hcnt; exact hne hcnt.symm
-              certs := hcs, count := by rw [hcnt]; exact b6, table := by rw [← hctl]; exact b7
-              rkh_len := by omega, rkh := h32, align := by decide }
+              certs_ne := fun (he : certs = []) => hne (by rw [← hcnt, he]; rfl)
+              certs := hcs
+              count := (by show certs.length < 2 ^ 32; rw [hcnt]; exact b6)
+              table := (by show certTableLength certs < 2 ^ 32; rw [← hctl']; exact b7)
+              rkh_len := (by show rkh.length ≤ 4; omega)
+              rkh := h32
+              align := (by show 0 < G.cbV1Alignment; decide) }
           refine ⟨wf, ?_⟩
-          simp only [bodyV1, pad4_of_len4 _ hlen4, hflat, hcnt, ← hctl]
+          simp only [bodyV1, pad4_of_len4 _ hlen4, hflat, hcnt, ← hctl']
           rw [← htake]
           have hd32 : data.drop 32 = certsBytes certs ++ rest := hb
-          have hcl : (certsBytes certs).length = hd.certTableLength := by rw [hctl]; exact certsBytes_len certs
+          have hcl : (certsBytes certs).length = hd.certTableLength := by rw [hctl']; exact certsBytes_len certs
           have e1 : (certs.map (fun c => leEnc 4 c.length ++ c)).flatten = (data.drop 32).take hd.certTableLength := by
             rw [hd32]; exact (List.take_left' hcl).symm
           have e2 : rest.take 128 = ((data.drop 32).drop hd.certTableLength).take 128 := by
